@@ -192,9 +192,82 @@ def rand_times(rng):
 
 
 # ------------------------------------------------------------------------------------------
+# measured-looking time axes in arbitrary units of time
+# ------------------------------------------------------------------------------------------
+AXIS_SHAPES = ["equidistant", "equidistant-offset", "pump-probe", "two-blocks", "log", "jittered", "one-gap", "drifting-step"]
+# unit of time relative to the "natural" one (rates of order 1e-3 .. 1e3 per natural unit): the same experiment written
+# in ps / ns / us / ms / s ... or in a finer unit; powers of two for the exact regime (dyadic rates stay dyadic)
+TIME_UNITS = [1.0, 1e-3, 1e-6, 1e-9, 1e-12, 1e-12, 1e-15, 1e3]
+TIME_UNITS_DYADIC = [1.0, 2.0 ** -10, 2.0 ** -20, 2.0 ** -30, 2.0 ** -40, 2.0 ** -40, 2.0 ** -50, 2.0 ** 10]
+
+
+def structured_axis(rng, shape=None, npoints=None):
+    """ascending axis with t >= 0 and >= 3 points, in natural units (values up to a few thousand)"""
+    shape = shape or rng.choice(AXIS_SHAPES)
+    n = npoints or rng.choice([3, 4, 5, 8, 13, 21, 34])
+    step = rng.choice([0.25, 0.5, 1.0, 0.1, 0.01, 1.5, 10 ** rng.uniform(-2, 1)])
+    if shape in ("equidistant", "equidistant-offset"):
+        t0 = 0.0 if shape == "equidistant" else rng.choice([step, 3 * step, 10 ** rng.uniform(-1, 1)])
+        ts = [t0 + i * step for i in range(n)]
+    elif shape in ("pump-probe", "two-blocks"):
+        # fine steps first, coarse steps afterwards (two-blocks: with a gap in between)
+        n1 = max(2, n // 2 if shape == "two-blocks" else n // 3)
+        coarse = step * rng.choice([2.0, 3.0, 10.0, 50.0, 7.3])
+        ts = [i * step for i in range(n1)]
+        start = ts[-1] + (coarse if shape == "pump-probe" else coarse * rng.choice([2.0, 5.0]))
+        ts += [start + k * coarse for k in range(n - n1)]
+    elif shape == "log":
+        lo, hi = 10 ** rng.uniform(-3, -1), 10 ** rng.uniform(0.5, 3)
+        ts = ([0.0] if rng.random() < 0.6 else []) + [lo * (hi / lo) ** (k / max(1, n - 2)) for k in range(n - 1)]
+    elif shape == "jittered":
+        ts = sorted(i * step + step * 0.4 * (rng.random() - 0.5) * (i > 0) for i in range(n))
+    elif shape == "one-gap":
+        gap_at = rng.randrange(1, n)
+        extra = step * rng.choice([1.0, 4.0, 0.5, 20.0])
+        ts = [i * step + (extra if i >= gap_at else 0.0) for i in range(n)]
+    else:   # drifting-step: every step a little longer than the one before
+        g = rng.choice([1.01, 1.05, 1.2, 1.5])
+        ts, t, d = [], 0.0, step
+        for _ in range(n):
+            ts.append(t)
+            t += d
+            d *= g
+    return [float(t) for t in ts], shape
+
+
+def rescale_time_unit(spec, unit):
+    """the same experiment written in another unit of time: times * unit, every rate constant / unit"""
+    out = dict(spec)
+    out["times"] = [float(t) * unit for t in spec["times"]]
+    if spec["kind"] == "decay":
+        out["kms"] = [[[to, fr, float(v) / unit] for to, fr, v in km] for km in spec["kms"]]
+    else:
+        out["rates"] = [float(v) / unit for v in spec["rates"]]
+    return out
+
+
+def rand_time_unit_spec(rng, kind=None, shape=None, unit=None):
+    """decay / parallel / sequential case on a structured time axis, written in a random unit of time"""
+    kind = kind or rng.choice(["decay", "decay", "decay", "par", "seq"])
+    base = rand_decay_spec(rng) if kind == "decay" else rand_simple_spec(rng, kind)
+    if base is None:
+        return None
+    base = dict(base)
+    base["times"], shape = structured_axis(rng, shape)
+    if unit is None:
+        unit = rng.choice(TIME_UNITS_DYADIC if base.get("exact") else TIME_UNITS)
+    spec = rescale_time_unit(base, unit)
+    spec["tag"] = f"time-unit/{shape}/{unit:.0e}/" + str(base.get("tag", ""))
+    # the spectrum condition is scale invariant; re-check because of the rounding of the division
+    if not spectrum_ok(system_of(spec)[1])[0]:
+        return None
+    return spec
+
+
+# ------------------------------------------------------------------------------------------
 # topologies
 # ------------------------------------------------------------------------------------------
-TOPOLOGIES = ["chain", "chain-noloss", "chain-backlast", "branch", "dag", "reversible", "parallel", "star",
+TOPOLOGIES =["chain", "chain-noloss", "chain-backlast", "branch", "dag", "reversible", "parallel", "star",
               "chain+loss", "closed-dag", "closed-reversible"]
 
 
